@@ -59,6 +59,27 @@ STRENGTHENED = {
     "C17-w3m2": "`get_all…` consumed incrementally around a construction (`ssalli`)",
     "C19-w3m2": "whitelist tables handed in as read-only views (`MappingProxyType`) of dicts the caller goes on to edit",
     "C14-w3m2": "title formats whose replacement field reads an attribute OF the value (`T{a0.real}`, option table 7, model `VOpts.viaAttr`); a render that raises on a universe in which everything is renderable is judged by the oracle (`renderable`)",
+    # wave 5 (written against a description of everything the harness is known to exercise)
+    "C01-w5m1": "a hub with well over 128 links; the links attached around the 128th are detached / re-attached / re-pointed from either side",
+    "C02-w5m1": "a universe that grows past 256 members, shrinks below and grows back, re-adding vertices that left or joined during the small phase",
+    "C02-w5m2": "vertices built by a class whose initialiser runs TWICE with the same arguments (non-cooperative multiple inheritance)",
+    "C03-w5m1": "constructors given `attributes=` that they must reject (a non-dict, a read-only name, a non-string key): raise, touch nothing",
+    "C03-w5m2": "caller-supplied EQUAL uids on distinct links",
+    "C04-w5m1": "read-only callbacks that themselves call `neighbors()` on the vertex being expanded while they are consulted (re-entrant filters)",
+    "C04-w5m2": "links carrying user attributes whose names a careless implementation might use itself (`directed`, `undirected`, `kind`, `visited` …)",
+    "C06-w5m1": "a chain 850 levels deep (the recursive forms still manage it) with links from its far end back to vertices listed long before",
+    "C07-w5m1": "re-entrant filters (as C04-w5m1)",
+    "C08-w5m2": "a CALLABLE as attribute value and as sought value (value class 7)",
+    "C09-w5m2": "faults that are StopIterations (`next(it)` on an exhausted iterator), and an oracle: a call whose filter raised must not return",
+    "C10-w5m1": "stored local closures whose cell holds an importable class, in graphs pickled several times in one process at different protocols",
+    "C11-w5m2": "NaN among the truthy matrix cells",
+    "C12-w5m1": "exchange table: the answer for one filter asked again after 299 other filters were used on the same vertex (an ageing memo)",
+    "C12-w5m2": "exchange table: layered (`ChainMap`) and ordered / default rule sets as `edge_whitelist=`",
+    "C14-w5m1": "equal uids on links in the renderer worlds",
+    "C15-w5m2": "a universe of 300 members with links among the members beyond position 256",
+    "C16-w5m2": "a render function that raises (also a StopIteration) at its k-th invocation: the render must raise or return the COMPLETE text",
+    "C17-w5m2": "argument tuples 13 / 14: a call with a keyword and a keyword-free call whose two positional arguments look like its key (key table now 338 rows)",
+    "C20-w5m1": "an edge class with a constructor of its own that takes the two ends and an option, no `**kwargs` (pool class DD)",
     # wave 4 (same brief as waves 1-2; run against the machinery as it stood after wave 3)
     "C05-w4m1": "filters that are PLAIN functions without a closure sharing ONE code object and differing only in their defaults (the loop idiom `lambda e, v, k=k: …`), two of them back to back on the same vertex",
     "C06-w4m2": "in generator mode a SECOND generator of the same traversal is consumed in lock-step with the first (`zip(ibft(..), ibft(..))`); oracle: both list the vertices once and stop",
@@ -70,7 +91,22 @@ _EQ = ("needs graph objects (vertices / law sets) that override `__eq__`/`__hash
        "code itself uses == membership throughout, so the identity reading of the properties presupposes default equality (§6, §11.1)")
 _FX = ("needs a filter callback that MUTATES the graph while it is being consulted; the model and the statement read filters as pure "
        "predicates of their arguments (stated assumption of C04 / C09)")
+_OV = ("needs a user subclass that OVERRIDES a structural method of the library (`add_to_link`, `add_vertex`, `vertices`) so that it refuses "
+       "or raises, or an ill-typed argument: the model and the statements assume the library's own methods and well-typed arguments (§6)")
+MISSED_NOTE = {
+    "C05-w5m2": "known gap: needs a producer and a consumer process whose numbers of flag-off invalidations coincide exactly",
+    "C07-w5m2": "missed by the QUICK tier: needs a pending DFS stack above 65536 entries; the THOROUGH tier of C06 / C07 now builds the complete "
+                "graph on 262 vertices (the model needs 95 s for it) on which the changed code lists a different order (verified by hand)",
+    "C11-w5m1": "known gap: needs an un-pickled copy, the original garbage-collected, and the allocator re-using one of its addresses for a new link",
+    "C13-w5m1": "known gap: needs an UNHASHABLE callable as filter with caching on (the unchanged code raises TypeError there; not in the model)",
+    "C17-w5m1": "known gap: needs a metaclass DERIVED from the generated one (`class Meta(semi_singleton_metaclass(), ABCMeta)`); the pool uses the generated metaclasses directly",
+    "C18-w5m1": "known gap: needs a metaclass derived from TrueSingleton, a per-class clear and then a global clear",
+    "C18-w5m2": "known gap: needs a singleton class whose `__new__` returns ANOTHER live singleton (an alias class)",
+    "C19-w5m1": "known gap: needs a universe that only its law set refers to (the harness keeps every universe alive in its pool)",
+    "C20-w5m2": "known gap: needs an edge type that is itself a semi-singleton, or whose constructor needs its ends",
+}
 OUT_OF_SCOPE = {
+    "C05-w5m1": _OV, "C06-w5m2": _OV, "C19-w5m2": _OV,
     "C01-w3m2": _EQ, "C03-w3m1": _EQ, "C08-w3m2": _EQ, "C14-w3m1": _EQ, "C15-w3m2": _EQ, "C19-w3m1": _EQ,
     "C04-w3m2": _FX, "C09-w3m1": _FX,
     "C20-w3m2": "needs a process that has created a million vertices (a bound on a class-level table): out of reach of a check that runs in minutes",
@@ -97,7 +133,7 @@ def main():
         rows.append("| %s | %s | %s | %s | %s | %s |" % (
             sid, ", ".join(f.replace("edgegraph/", "") for f in files_of(os.path.join(d, "patch.diff"))),
             "yes" if m.get("confirmed") else "NO", ", ".join(caught) or ("outside the stated scope" if sid in OUT_OF_SCOPE else "**missed**"),
-            first[:110].replace("|", "/"), STRENGTHENED.get(sid, OUT_OF_SCOPE.get(sid, ""))))
+            first[:110].replace("|", "/"), STRENGTHENED.get(sid, OUT_OF_SCOPE.get(sid, MISSED_NOTE.get(sid, "")))))
     print("| id | files changed | confirmed (suite passes, demo fails/passes) | caught by quick check | first report | strengthening it prompted |")
     print("|---|---|---|---|---|---|")
     print("\n".join(rows))
